@@ -17,6 +17,7 @@ from lib.core import f2bits, bits2f
 
 DRIVER = "drv_motion"
 LEAN_TARGETS = ["OmplModel.Props.C05", DRIVER]
+CSPACES = ("proj", "atlas", "tb")        # constrained spaces (ConstrainedMotionValidator)
 D3 = ("owen", "vana", "vanaowen")     # spaces served by Dubins3DMotionValidator
 NEG_INF_BITS = "18442240474082181120"
 
@@ -36,6 +37,8 @@ SPACES = {
     "vana": (None, 5, 1, True),
     "vanaowen": (None, 5, 1, True),
     "proj": (None, 3, 1, True),
+    "atlas": (None, 3, 1, True),
+    "tb": (None, 3, 1, True),
 }
 
 
@@ -131,7 +134,7 @@ def kvline(o):
 def parse_q(s):
     if s in ("-", ""):
         return []
-    return [None if x in ("?", "x") else int(x) for x in s.split(",")]
+    return [None if x in ("?", "x", "p") else int(x) for x in s.split(",")]
 
 
 def oracle(script, out, segs=None):
@@ -140,7 +143,7 @@ def oracle(script, out, segs=None):
     segment count formula."""
     cfg = parse_header(script[0])
     tree, nreals, _nf, hinted = space_info(cfg)
-    stats = {"n0_invalid_excluded": 0, "ambiguous": 0, "calls": 0, "nontrivial": 0, "nopath": 0, "f75": [], "box": 0, "gms": 0,
+    stats = {"n0_invalid": 0, "ambiguous": 0, "calls": 0, "nontrivial": 0, "nopath": 0, "f75": [], "box": 0, "gms": 0,
              "narrow": [], "constrained": 0}
     if len(out) < len(script) - 1:
         return (len(out), "implementation stopped early (crash or sanitizer report)"), stats
@@ -204,7 +207,8 @@ def oracle(script, out, segs=None):
             continue
         # cm2 / cm3 / cm3n
         kv = kvline(o)
-        if cfg["space"] == "proj":
+        if cfg["space"] in CSPACES:
+            stats["_cspace"] = cfg["space"]
             f = constrained_oracle(op, t, kv, inv, stats, i, pair_verdicts)
             c1 = kv["cnt"].split("->")[1]
             if prev_cnt is not None and tuple(map(int, kv["cnt"].split("->")[0].split("/"))) != prev_cnt:
@@ -275,11 +279,16 @@ def oracle(script, out, segs=None):
                 if kv["lv"] != "untouched" or kv["lvs"] not in ("untouched", "null"):
                     return (i, "lastValid was written although the motion is valid (lv=%s lvs=%s)" % (kv["lv"], kv["lvs"])), stats
             elif n == 0:
-                stats["n0_invalid_excluded"] += 1   # fraction (-1)/0: excluded from the [0,1) clause (DESIGN 2.5)
-                # ... but the storage clauses still apply: the fraction and (when asked for) the state are written, and
-                # the state is the space's own interpolate at the reported fraction (s1 for the curve spaces: t <= 0)
+                # zero-length motion, end state invalid: one point, so the last valid fraction is 0 and the state is
+                # interpolate(s1,s2,0) = s1.  The as-coded former value (double)(0-1)/(double)0 = -inf is the narrow
+                # record F124 (exactly that bit pattern; any other wrong value is a violation).
+                stats["n0_invalid"] += 1
                 if kv["lv"] == "untouched":
                     return (i, "motion invalid (s1 == s2, end state invalid) but lastValid.second was not written"), stats
+                if kv["lv"] == NEG_INF_BITS:
+                    stats["narrow"].append((i, "n0-fraction-minus-infinity"))
+                elif kv["lv"] != f2bits(0.0):
+                    return (i, "zero-length motion with an invalid end state: last-valid fraction %r, must be 0" % bits2f(kv["lv"])), stats
                 if op == "cm3" and kv["lvs"] != "eq":
                     return (i, "s1 == s2 with an invalid end state: lastValid.first is not interpolate(s1,s2,lastValid.second) "
                                "(lvs=%s): the returned last-valid state is not a state of the motion" % kv["lvs"]), stats
@@ -313,6 +322,8 @@ def constrained_oracle(op, t, kv, inv, stats, i, pair_verdicts):
     n, v = int(kv["n"]), int(kv["v"])
     reached, sat = kv["reached"] == "1", kv["sat"] == "1"
     qraw = kv["q"].split(",")
+    if qraw and qraw[-1] == "p" and v == 0:
+        qraw = qraw[:-1]       # (tb) the wrapper's look at the re-projected last-valid state
     if qraw and qraw[-1] == "x" and not reached:
         qraw = qraw[:-1]       # the candidate a traversal that gave up looked at last (not a state of the motion)
     q = parse_q(",".join(qraw) if qraw else "-")
@@ -321,8 +332,22 @@ def constrained_oracle(op, t, kv, inv, stats, i, pair_verdicts):
     if n >= 3:
         stats["nontrivial"] += 1
     idx = list(range(1, n + 1))
+    if int(kv["amb"]) > 0:
+        # the traversal revisits a state bit-for-bit (an Atlas oscillating in front of an unreachable end state): the
+        # index of a queried state is ambiguous; excluded (counted), also from the model comparison
+        stats["ambiguous"] += 1
+        return None
+    if 0 in inv and t is not None and stats.get("_cspace") != "proj":
+        stats["start_invalid"] = stats.get("start_invalid", 0) + 1     # s1 invalid: outside the precondition, only compared
+        return None
+    q = [x for x in q if x != 0]      # Atlas / TangentBundle look at s1 itself (valid by precondition)
+    if any(x is None for x in q) and stats.get("_cspace") in ("atlas", "tb"):
+        # the validator's own traversal took other steps than the harness' reference run (the atlas grew a chart in
+        # between): the indices cannot be decoded for this call; excluded and counted, also from the model comparison
+        stats["unstable_traversal"] = stats.get("unstable_traversal", 0) + 1
+        return None
     if any(x is None for x in q):
-        return "isValid was asked about a state that is neither s2 nor a state of the manifold traversal"
+        return "isValid was asked about a state that is neither s1, s2 nor a state of the manifold traversal"
     if any(x not in idx for x in q):
         return "isValid was asked about traversal index %s outside [1,%d]" % ([x for x in q if x not in idx][0], n)
     bad = [j for j in idx if j in inv]
@@ -579,7 +604,7 @@ def short_scripts(ck, hbin, r, tier):
             if hinted:
                 n = int(ns[k]["n"])
                 segs["%s %s" % (st(a), st(b))] = (bits2f(ns[k]["dist"]), bits2f(ns[k]["L"]))
-                hint = None if space in ("dubins", "dubinssym", "rs") else n if space not in D3 else (n, int(ns[k].get("path", "1")))
+                hint = None if space in ("dubins", "dubinssym", "rs", "vana") else n if space not in D3 else (n, int(ns[k].get("path", "1")))
             else:
                 n = spec_seg(tree, cfg, a, b)
                 hint = None
@@ -881,11 +906,13 @@ def account(ck, tag, script, impl, stats):
     ck.traces_validated += 1
     ck.count("scripts:" + tag.split(":")[0])
     ck.count("calls", stats["calls"])
-    ck.count("excluded:n=0 invalid end state (fraction -1/0)", stats["n0_invalid_excluded"])
+    ck.count("n=0 with an invalid end state (fraction must be 0)", stats["n0_invalid"])
     ck.count("excluded:ambiguous subdivision (identical interpolants)", stats["ambiguous"])
     ck.count("dubins3d: getPath found no path (must answer false and count one invalid motion)", stats["nopath"])
     ck.count("calls under a geometric (box) predicate", stats["box"])
     ck.count("calls of the ConstrainedMotionValidator", stats["constrained"])
+    ck.count("excluded:atlas/tb traversal not decodable (atlas changed between reference and call)", stats.get("unstable_traversal", 0))
+    ck.count("compared only:constrained call with an invalid start state", stats.get("start_invalid", 0))
     cfg = parse_header(script[0])
     last_inv = ""
     for i, ln in enumerate(script[1:]):
@@ -932,6 +959,10 @@ def diff(ck, impl, model, skip=()):
     # getMotionStates on a pair whose end points / interpolants coincide bit-wise (identical states): the slot labels are
     # ambiguous (harness amb > 0); only the returned count and the vector size are compared there
     for i, l in enumerate(a):
+        if " reached=" in l and (" amb=0 " not in l or "?" in l.split(" q=")[1].split()[0]):   # repeated / undecodable states
+            a[i] = "<ambiguous traversal>"
+            if i < len(b):
+                b[i] = "<ambiguous traversal>"
         if l.startswith("ret=") and not l.endswith("amb=0"):
             a[i] = " ".join(l.split()[:2])
             if i < len(b):
@@ -947,7 +978,7 @@ def report_narrow(ck, hbin, script, what, hits, cfg):
     small = [script[0]] + inv + hint + [script[1 + i]]
     o, _rc, _e, m = run_script(ck, hbin, small)
     ck.count("narrow:" + what, len(hits))
-    validator = "constrained" if cfg["space"] in ("proj", "tb") else cfg["validator"]
+    validator = "constrained" if cfg["space"] in CSPACES else cfg["validator"]
     new = ck.report({"engine": "motion", "what": what, "validator": validator, "form": script[1 + i].split()[0]},
                     script=small, expected=m, observed=o, engine="motion")
     if new:
@@ -1038,7 +1069,7 @@ def hinted_scripts(ck, hbin, r, tier):
             if n > 1500:
                 continue
             # Dubins / symmetric Dubins / Reeds-Shepp: no hint, the model computes n from C14's bit-exact distance models
-            hint = None if cfg["space"] in ("dubins", "dubinssym", "rs") else n if cfg["space"] not in D3 else (n, int(kv.get("path", "1")))
+            hint = None if cfg["space"] in ("dubins", "dubinssym", "rs", "vana") else n if cfg["space"] not in D3 else (n, int(kv.get("path", "1")))
             segs["%s %s" % (st(a), st(b))] = (bits2f(kv["dist"]), bits2f(kv["L"]))
             for kind in ["none", "end", r.choice(KINDS), r.choice(KINDS)]:
                 lines += group(a, b, rnd_inv(r, n, kind), hint=hint)
@@ -1051,9 +1082,10 @@ def proj_scripts(ck, hbin, r, tier):
     closer than delta, several steps), an end state off the manifold; the traversal length n-1, whether it arrives and
     isSatisfied(s2) are measured on the real code with validity checking off and handed to the model as a hint."""
     out = []
-    for rep in range(4 if tier == "thorough" else 2):
+    for rep in range(9 if tier == "thorough" else 6):
         delta = r.choice([0.05, 0.1, 0.02])
-        cfg = {"space": "proj", "validator": "default", "frac": 0.01, "lo": -2.0, "hi": 2.0, "dim": 1, "f": [1], "rho": delta}
+        cspace = CSPACES[rep % 3]
+        cfg = {"space": cspace, "validator": "default", "frac": 0.01, "lo": -2.0, "hi": 2.0, "dim": 1, "f": [1], "rho": delta}
         pairs = []
         for p in range(30 if tier == "thorough" else 12):
             th, ph = r.uniform(0.3, math.pi - 0.3), r.uniform(-math.pi, math.pi)
@@ -1070,19 +1102,31 @@ def proj_scripts(ck, hbin, r, tier):
         pre = [header(cfg), "invalid idx"] + ["cm3 %s %s" % (st(a), st(b)) for a, b in pairs]
         o, rc, err = run_harness(ck, hbin, pre)
         if rc != 0 or o is None or len(o) != len(pre) - 1:
-            out.append(("proj", pre, None))
+            out.append((cspace, pre, None))
             continue
         lines = [header(cfg)]
         for (a, b), ol in zip(pairs, o[1:]):
             kv = kvline(ol)
             n = int(kv["n"])
-            hint = "hint %d %s %s %d" % (n, kv["reached"], kv["sat"], 1 if kv["q"].endswith("x") else 0)
-            for kind in ["none", "end", "first", r.choice(KINDS), r.choice(KINDS)]:
-                inv = rnd_inv(r, n, kind)
+            for kind in ["none", "end", "first", r.choice(KINDS), r.choice(KINDS)] + (["start"] if cspace != "proj" else []):
+                inv = {0} | (rnd_inv(r, n, "single") if r.chance(1, 2) else set()) if kind == "start" else rnd_inv(r, n, kind)
                 forms = ("cm2", "cm3", "cm3n") if r.chance(1, 2) else ("cm2", "cm3")
-                lines += ["invalid idx" + "".join(" %d" % j for j in sorted(inv)), hint] + \
-                         ["%s %s %s" % (f, st(a), st(b)) for f in forms]
-        out.append(("proj", lines, None))
+                lines.append("invalid idx" + "".join(" %d" % j for j in sorted(inv)))
+                for f in forms:
+                    lines += ["hint 0 1 1 0", "%s %s %s" % (f, st(a), st(b))]
+        # the traversal length, arrival, isSatisfied(s2) and the extra candidate are read off the SAME call sequence (an
+        # Atlas / TangentBundle grows charts as it is used, so they depend on the history): run once, fill the hints in
+        o2, rc2, err2 = run_harness(ck, hbin, lines)
+        if rc2 == 0 and o2 is not None and len(o2) == len(lines) - 1:
+            last_reached = {}
+            for k in range(1, len(lines)):
+                if lines[k].startswith("hint") and k + 1 < len(lines):
+                    kv = kvline(o2[k])          # output of the call that follows (o2 index = line index - 1 + 1)
+                    qq = kv["q"].split(",")
+                    if qq and qq[-1] == "p":
+                        qq = qq[:-1]
+                    lines[k] = "hint %s %s %s %d" % (kv["n"], kv["reached"], kv["sat"], 1 if qq and qq[-1] == "x" else 0)
+        out.append((cspace, lines, None))
     return out
 
 
@@ -1153,7 +1197,7 @@ def run(ck):
                    "the model as a hint; its formula factor*ceil(dist/L) is checked by the oracle from the measured dist and L"]
     ck.assumptions += ["s1 is valid (MotionValidator.h: not re-checked, not demanded)",
                        "segment counts below 2^31 (int/unsigned conversions not modelled)",
-                       "n = 0 with an invalid end state reports fraction (-1)/0: excluded from the [0,1) clause (DESIGN 2.5), exercised and counted",
+                       "n = 0 with an invalid end state: the fraction must be 0 (F124; DESIGN 2.5 had excluded this point, the property text does not)",
                        "Dubins3D: when getPath finds no path the call must answer false and count one invalid motion (F75); the lastValid clause "
                        "does not apply there (no curve to interpolate; lastValid is left unset, theorem dubins3D_nopath_lastValid_unset)",
                        "getMotionStates: count + 2 < 2^32 apart from the modelled UINT_MAX wrap; in alloc mode the incoming vector holds no owned states"]
@@ -1205,7 +1249,7 @@ def replay(ck, data):
     hbin = ck.build_harness("motion", ["motion.cpp"], link_ompl=True)
     ck.lean_build([DRIVER])
     script = data["script"]
-    if " space=tb " in script[0]:          # harness-only scenario (TangentBundleSpaceInformation wrapper, F123)
+    if " space=tb " in script[0] and any(l.startswith("cm3x") for l in script):          # harness-only scenario (TangentBundleSpaceInformation wrapper, F123)
         o, rc, err = run_harness(ck, hbin, script)
         for ln, ol in zip(script[1:], (o or []) + ["<missing>"] * len(script)):
             print("%-60s impl:  %s" % (ln[:60], ol))
